@@ -111,7 +111,8 @@ def plot_convergence(saving_folder: str | os.PathLike) -> None:
         label="min loss",
     )
 
-    ids = data_frame["method_samp"].unique()
+    # seaborn draws (and lists in the legend) the hue levels in increasing order of the id
+    ids = np.sort(data_frame["method_samp"].unique())
     sampler_names = _get_samplers_names(saving_folder, ids)
 
     handles, labels = g.get_legend_handles_labels()
@@ -174,7 +175,8 @@ def plot_sampling(saving_folder: str | os.PathLike) -> None:
             "fill": False,
         },
     )
-    ids = data_frame["method_samp"].unique()
+    # seaborn draws (and lists in the legend) the hue levels in increasing order of the id
+    ids = np.sort(data_frame["method_samp"].unique())
     sampler_names = _get_samplers_names(saving_folder, ids)
 
     # take legend of the plot in the last row and first column, to be sure it's a scatter plot
@@ -288,7 +290,8 @@ def plot_sampling_batch_nums(
         palette="tab10",
     )
 
-    ids = data_frame["method_samp"].unique()
+    # the legend lists the hue levels that were drawn (the selected batches), in increasing order of the id
+    ids = np.sort(data_frame_2["method_samp"].unique())
     sampler_names = _get_samplers_names(saving_folder, ids)
 
     # take legend of the plot in the last row and first column, to be sure it's a scatter plot
